@@ -121,7 +121,20 @@ def scenarios(tier, seed):
         ends.append(w)
     w = S("TomatoGDD", "Loam", seed=12, plant_md=(4, 15), year=2000, seasons=3, regime="hot"); w["end"] = "2002/04/15"; ends.append(w)
     w = S("Wheat", "Loam", seed=13, plant_md=(10, 1), year=2000, seasons=3); w["end"] = "2002/10/01"; ends.append(w)
-    scs += sp + [b, c, d, e, f, g, h, i] + ends
+    # derived dates at the leap day: planting days for which (planting + days to maturity + 30 days) - the default latest harvest date - falls on
+    # 28 Feb / 29 Feb / 1 Mar of a leap year when counted in the simulated years (the model counts in the reference year 1990)
+    import datetime as _dt
+    leap = []
+    for crop in ("Barley", "Tomato", "Maize", "Potato", "Sorghum"):
+        m = L.MATURITY_CD[crop] + 30
+        for hy in (2004,) if tier != "thorough" else (2000, 2004):
+            for off in ((0,) if tier != "thorough" and crop != "Barley" else (-1, 0, 1)):
+                pday = _dt.date(hy, 2, 29) + _dt.timedelta(days=off) - _dt.timedelta(days=m)
+                w = S(crop, "Loam", seed=40 + off, plant_md=(pday.month, pday.day), year=pday.year, seasons=2, regime="warm")
+                leap.append(w)
+    scs += sp + [b, c, d, e, f, g, h, i] + ends + leap
+    # the pairwise covering array over the configuration dimensions (every pair of option levels occurs in some run)
+    scs += L.pairwise_cases(seed)
     return scs
 
 
